@@ -308,40 +308,63 @@ func (e *Engine) runVC(vc *VC, fn *ssa.Function, fc *FuncContract, splitVals []i
 	if vc.replay != nil {
 		vc.replay.addResults(fc, results, final)
 	}
-	if fc.Panics != nil {
+	if fc.Panics != nil && !fc.PanicsOnly {
 		vc.oblige("panics-complete", "normal return although the 'panics when' condition held: "+fc.Panics.Text, retReach, not(f.panicsC), "@panics")
+	}
+	type retCase struct {
+		reach   string
+		st      *State
+		results []*SV
+		suffix  string
+	}
+	cases := []retCase{{retReach, final, results, ""}}
+	if fc.PerReturn && len(f.rets) > 1 {
+		// postconditions and frame are checked at every return separately (no merged final state)
+		cases = nil
+		for k, r := range f.rets {
+			cases = append(cases, retCase{r.cond, r.st, r.vals, fmt.Sprintf("@ret%d", k)})
+		}
+	}
+	// frame first: evaluating the postconditions may add (division) facts that the frame goals do not need
+	if fc.HasMod {
+		targets := vc.evalModifies(fc, env)
+		for _, rc := range cases {
+			goals := vc.frameGoals(entry, rc.st, targets)
+			for _, h := range stateKeys {
+				if g, ok := goals[h]; ok {
+					o := vc.obligeNoAssume("frame", fmt.Sprintf("%s modifies %s outside its modifies clause", fc.Key, h), rc.reach, g, "@frame")
+					if o != nil {
+						o.Name = fmt.Sprintf("%s::frame[%s]%s", vc.Name, h, rc.suffix)
+					}
+				}
+			}
+		}
 	}
 	for i, c := range fc.Ensures {
 		kind := "ensures"
 		parts := splitConst(c.E)
-		var o *Obligation
-		for pi, pe := range parts {
-			o = vc.obligeNoAssume(kind, fmt.Sprintf("postcondition %d of %s: %s", i, fc.Key, c.Text), retReach, post.evalGoal(pe), c.Tags...)
-			if o != nil {
-				o.Name = fmt.Sprintf("%s::ensures[%d]", vc.Name, i)
-				if c.Label != "" {
-					o.Name = fmt.Sprintf("%s::ensures[%s]", vc.Name, c.Label)
-				}
-				if len(parts) > 1 {
-					o.Name += fmt.Sprintf(".%d", pi)
+		for _, rc := range cases {
+			cpost := post
+			if rc.suffix != "" {
+				cpost = vc.bindEnv(fc, fn, params, rc.results, rc.st, entry)
+			}
+			for pi, pe := range parts {
+				o := vc.obligeNoAssume(kind, fmt.Sprintf("postcondition %d of %s: %s", i, fc.Key, c.Text), rc.reach, cpost.evalGoal(pe), c.Tags...)
+				if o != nil {
+					o.Name = fmt.Sprintf("%s::ensures[%d]", vc.Name, i)
+					if c.Label != "" {
+						o.Name = fmt.Sprintf("%s::ensures[%s]", vc.Name, c.Label)
+					}
+					if len(parts) > 1 {
+						o.Name += fmt.Sprintf(".%d", pi)
+					}
+					o.Name += rc.suffix
 				}
 			}
 		}
 		// success-path cover for clauses guarded by err == nil
 		if b, ok := c.E.(Binary); ok && b.Op == "==>" {
 			vc.cover("cover-ensures", fmt.Sprintf("antecedent of postcondition %d of %s is reachable: %s", i, fc.Key, exprString(b.X)), and(retReach, post.evalBool(b.X)))
-		}
-	}
-	if fc.HasMod {
-		targets := vc.evalModifies(fc, env)
-		goals := vc.frameGoals(entry, final, targets)
-		for _, h := range stateKeys {
-			if g, ok := goals[h]; ok {
-				o := vc.obligeNoAssume("frame", fmt.Sprintf("%s modifies %s outside its modifies clause", fc.Key, h), retReach, g, "@frame")
-				if o != nil {
-					o.Name = fmt.Sprintf("%s::frame[%s]", vc.Name, h)
-				}
-			}
 		}
 	}
 	return nil
